@@ -115,6 +115,33 @@ Lemma adv_set_r : forall z b used, buf_ok b -> bstream (z_r z) = used ++ bstream
   adv z (gz_set_r z b) used.
 Proof. intros. unfold adv. cbn. split; [assumption|]. repeat split; auto. Qed.
 
+Lemma adv_set_digest : forall z z' u v, adv z z' u -> adv z (gz_set_digest z' v) u.
+Proof.
+  intros z z' u v H. unfold adv in *.
+  cbn [z_r z_multistream z_err z_hdr z_size z_dec gz_set_digest]. exact H.
+Qed.
+
+Lemma adv_of_set_digest : forall z z' u v, adv z z' u -> adv (gz_set_digest z v) z' u.
+Proof.
+  intros z z' u v H. unfold adv in *.
+  cbn [z_r z_multistream z_err z_hdr z_size z_dec gz_set_digest]. exact H.
+Qed.
+
+Lemma rf_adv : ioReadFull_spec_statement ->
+  forall z n, buf_ok (z_r z) -> n < 262144 ->
+  forall bytes r b', ioReadFull (z_r z) n = (bytes, r, b') ->
+    adv z (gz_set_r z b') bytes /\
+    (r = ROk /\ length bytes = N.to_nat n \/
+     (r = REOF \/ r = RUnexpectedEOF \/ r = RSrcErr) /\ (length bytes < N.to_nat n)%nat /\
+     bstream b' = [] /\ (r = REOF -> bytes = [])).
+Proof.
+  intros HRF z n Hok Hn bytes r b' E.
+  destruct (rf_spec HRF _ _ Hok Hn _ _ _ E) as (H1 & H2 & H3 & H4 & H5 & H6).
+  split; [apply adv_set_r; assumption|exact H6].
+Qed.
+
+Local Opaque crc32_update.
+
 Definition no_bad (e : gres) : Prop := e <> GR REOF /\ e <> GR RStuck /\ e <> GR RPanic.
 
 Lemma no_bad_noEOF : forall r, r = REOF \/ r = RUnexpectedEOF \/ r = RSrcErr ->
@@ -297,48 +324,52 @@ Proof.
   intros HRF HCRC flg z hdr Hok Hby z' hdr' e H. unfold rh_extra in H.
   change flagExtra with 2 in H. destruct (N.testbit flg 2).
   - destruct (ioReadFull (z_r z) 2) as [[buf e1] b1] eqn:E1.
-    destruct (rf_spec HRF (z_r z) 2 Hok eq_refl _ _ _ E1)
-      as (Hok1 & Hs1 & Hc1 & Hsz1 & Htm1 & Hr1).
-    pose proof (adv_set_r z b1 buf Hok1 Hs1 Hc1 Hsz1 Htm1) as A1.
+    destruct (rf_adv HRF z 2 Hok eq_refl _ _ _ E1) as (A1 & Hr1).
     destruct Hr1 as [[-> Hlen]|(Hr & Hlt & Hnil & _)].
     + (* two length bytes *)
       change (N.to_nat 2) with 2%nat in Hlen.
       destruct buf as [|a [|b0 [|? ?]]]; try discriminate Hlen. clear Hlen.
+      assert (Hs1 : bstream (z_r z) = [a; b0] ++ bstream b1) by apply A1.
       assert (Hab : a < 256 /\ b0 < 256).
       { rewrite Hs1 in Hby. inversion Hby as [|? ? Ha Hby']; subst.
         inversion Hby' as [|? ? Hb _]; subst. split; assumption. }
       pose proof (of_le2_lt a b0 (proj1 Hab) (proj2 Hab)) as Hn.
-      cbn [z_r gz_set_digest gz_set_r] in H.
-      destruct (ioReadFull b1 (of_le [a; b0])) as [[data e2] b2] eqn:E2.
-      destruct (rf_spec HRF b1 (of_le [a; b0]) Hok1 ltac:(lia) _ _ _ E2)
-        as (Hok2 & Hs2 & Hc2 & Hsz2 & Htm2 & Hr2).
-      assert (A2 : adv (gz_set_r z b1) (gz_set_r (gz_set_r z b1) b2) data)
-        by (apply adv_set_r; assumption).
-      pose proof (adv_trans _ _ _ _ _ A1 A2) as A.
+      cbv zeta in H.
+      set (z1 := gz_set_digest (gz_set_r z b1) (crc32_update (z_digest (gz_set_r z b1)) [a; b0])) in *.
+      assert (A1' : adv z z1 [a; b0]) by (apply adv_set_digest; exact A1).
+      assert (Hd1 : z_digest z1 = crc32_update (z_digest z) [a; b0]) by reflexivity.
+      assert (Hb1 : bstream (z_r z1) = bstream b1) by reflexivity.
+      clearbody z1.
+      destruct (ioReadFull (z_r z1) (of_le [a; b0])) as [[data e2] b2] eqn:E2.
+      destruct (rf_adv HRF z1 (of_le [a; b0]) (proj1 A1') (N.lt_trans _ 65536 262144 Hn eq_refl)
+                  _ _ _ E2) as (A2 & Hr2).
+      assert (Hs2 : bstream (z_r z1) = data ++ bstream b2) by apply A2.
+      pose proof (adv_trans _ _ _ _ _ A1' A2) as A.
       exists ([a; b0] ++ data).
       destruct Hr2 as [[-> Hlen2]|(Hr2 & Hlt2 & Hnil2 & _)].
-      * inversion H; subst. clear H. split; [exact A|].
+      * inversion H; subst. clear H. split; [apply adv_set_digest; exact A|].
         split.
         -- intros _. split.
-           ++ cbn [z_digest gz_set_digest gz_set_r]. apply HCRC.
-           ++ exists data. cbn [z_r gz_set_digest gz_set_r]. split; [|split; [reflexivity|discriminate]].
-              rewrite Hs1, Hs2. cbn [app]. apply p_extra_gen. symmetry. exact Hlen2.
+           ++ cbn [z_digest gz_set_digest gz_set_r]. rewrite Hd1. apply HCRC.
+           ++ exists data. cbn [z_r gz_set_digest gz_set_r].
+              split; [|split; [reflexivity|discriminate]].
+              rewrite Hs1, <- Hb1, Hs2. cbn [app]. apply p_extra_gen. symmetry. exact Hlen2.
         -- split; [intros C; exfalso; apply C; reflexivity|].
            unfold no_bad. repeat split; discriminate.
       * destruct (no_bad_noEOF e2 Hr2) as [NB NE].
-        assert (H' : (gz_set_r (gz_set_digest (gz_set_r z b1) (crc32_update (z_digest (gz_set_r z b1)) [a; b0])) b2,
-                      hdr, noEOF (GR e2)) = (z', hdr', e)).
+        assert (H' : (gz_set_r z1 b2, hdr, noEOF (GR e2)) = (z', hdr', e)).
         { destruct Hr2 as [->|[->| ->]]; exact H. }
         inversion H'; subst. clear H H'.
         split; [exact A|]. split; [intros C; exfalso; apply NE; exact C|].
         split; [|exact NB]. intros _. exists CUnexpectedEOF.
-        rewrite Hs1, Hs2, Hnil2, app_nil_r. cbn [app]. apply p_extra_short2. exact Hlt2.
+        rewrite Hs1, <- Hb1, Hs2, Hnil2, app_nil_r. cbn [app]. apply p_extra_short2. exact Hlt2.
     + destruct (no_bad_noEOF e1 Hr) as [NB NE].
       assert (H' : (gz_set_r z b1, hdr, noEOF (GR e1)) = (z', hdr', e)).
       { destruct Hr as [->|[->| ->]]; exact H. }
       inversion H'; subst. clear H H'.
       exists buf. split; [exact A1|]. split; [intros C; exfalso; apply NE; exact C|].
       split; [|exact NB]. intros _. exists CUnexpectedEOF.
+      assert (Hs1 : bstream (z_r z) = buf ++ bstream b1) by apply A1.
       rewrite Hs1, Hnil, app_nil_r. apply p_extra_short. exact Hlt.
   - inversion H; subst. clear H. exists []. split; [apply adv_refl; assumption|].
     split.
